@@ -217,6 +217,8 @@ def _history(rng):
         else:
             ops.append(["setitem", probe])
     case = {"op": "hist", "names": names, "ops": ops}
+    if rng.random() < 0.3:
+        case["strict_first"] = True                          # see the "dir" step of the observer
     if rng.random() < 0.2:
         # the same history on a table WITHOUT rows (a filter that matched nothing): shape, repr and row views take
         # other paths there, so a map refresh that happens "by the way" on tables with rows does not happen
@@ -456,6 +458,17 @@ def _obs_hist(case):
                 t = t >> Vector([fresh()], name=V.dec(op[1]))
             st["res"] = ["ok"]
         elif kind == "dir":
+            if case.get("strict_first"):
+                # the first look happens while warnings are escalated to errors (python -W error, pytest filterwarnings=error):
+                # a "duplicate column name" warning then aborts that access - the next one must still see the present names
+                import warnings
+                with warnings.catch_warnings():
+                    warnings.simplefilter("error")
+                    for probe in (lambda: dir(t), lambda: t.column_names() and getattr(t, "no_such_attr_", None)):
+                        try:
+                            probe()
+                        except Exception:                    # noqa: BLE001
+                            pass
             d = dir(t)
             st["res"] = ["keys", sorted(x for x in d if x not in base)]
             st["fresh"] = _fresh_accessors(before)
